@@ -169,7 +169,7 @@ def norm_digest(d):
 
     out = []
     for name, content in crashfs.dir_digest(d):
-        out.append((re.sub(r"\.\d+\.tmp$", ".PID.tmp", name), content))
+        out.append((re.sub(r"(\.\d+)+\.tmp$", ".PID.tmp", name), content))
     return sorted(out, key=lambda t: t[0])
 
 
